@@ -985,7 +985,11 @@ func (ch *Chain) CancelWithRcode(rcode int, do bool) {
 	m.RecursionAvailable = true
 	m.RecursionDesired = true
 
-	if opt := req.IsEdns0(); opt != nil {
+	// An OPT only toward a client that sent one (RFC 6891 §7). By the time a
+	// handler ahead of the edns writer gives up — recovery after a panic
+	// further down — edns has attached its own OPT to the request for the
+	// upstream's sake, so the message is not the witness; the request is.
+	if opt := req.IsEdns0(); opt != nil && ch.Request.HasOPT() {
 		m.Extra = []dns.RR{rcodeReplyOPT(opt, do)}
 	}
 
